@@ -186,6 +186,7 @@ func TestC09Format(t *testing.T) {
 			Comments:     rapid.Bool().Draw(t, "comments"),
 			OldModifiers: rapid.IntRange(0, 3).Draw(t, "oldMods") == 0,
 			Dangling:     rapid.IntRange(0, 3).Draw(t, "dangling") == 0,
+			ShuffleCalls: rapid.IntRange(0, 2).Draw(t, "shuffleCalls") == 0,
 		}
 		if lay.OldModifiers && lay.Comments && stats.Known("C09/comment-duplicated-with-old-style-modifiers") {
 			lay.OldModifiers = false
